@@ -9,6 +9,7 @@ outcome for the same text; both sides are decided by the real loader.
 import copy
 import importlib
 import io
+import json
 import os
 import shutil
 import sys
@@ -179,6 +180,18 @@ def compare_pair(ctx, fam, shape, s1, e1, s2, e2, res_model, case, rng,
         res.sig("%s|%s|%s|%s" % (fam, shape, o2[0], ",".join(sorted(
             f["kind"] for f in faults))))
         res.sample("%s-%s" % (fam, o2[0]), dict(case, text=text), 1)
+        if key(o1) == key(o2) and o1[0] == "ok" and \
+                json.dumps(o1[1]) != json.dumps(o2[1]):
+            # equal trees whose attributes come in another order: an
+            # expansion writes the base's items first, in the base's order
+            res.count("attribute_order_differs")
+            res.violate("composed-differs-from-expansion-in-order",
+                        dict(case, text=text),
+                        {"expanded": json.dumps(o2[1])[:300]},
+                        {"composed": json.dumps(o1[1])[:300]},
+                        detail="%s %s: same values, other order of "
+                        "attributes; text=%r" % (fam, shape, text),
+                        vsig="order|%s" % fam)
         if key(o1) != key(o2):
             mech = classify(case) if classify else None
             res.violate("composed-differs-from-expansion",
